@@ -14,6 +14,7 @@ import (
 
 	"github.com/jech/storrent/alloc"
 	"github.com/jech/storrent/config"
+	"github.com/jech/storrent/hash"
 	"github.com/jech/storrent/peer"
 	"github.com/jech/storrent/tor"
 	"github.com/jech/storrent/tor/piece"
@@ -313,6 +314,41 @@ func runGlobal(c gcase) (fail string, labels map[string]bool) {
 		defer func() { piece.VerifYieldHook = nil }()
 	}
 	defer func() { tor.VerifYieldHook = nil }()
+	// one torrent is dying but still listed while the pass walks the torrents:
+	// its loop has stopped (it no longer answers), its deletion waits for a
+	// piece that is being hashed
+	var hashRelease chan struct{}
+	if c.action == "dying-one" && len(xs) >= 2 && c.sizes[0] < 8 {
+		x := xs[0]
+		const h = 7
+		for b := 0; b < x.Blocks(h); b++ {
+			x.T.Pieces.AddData(h, uint32(b*16384), x.Data(h, int64(b)*16384, 16384), 1)
+		}
+		hashRelease = make(chan struct{})
+		rel := hashRelease
+		piece.VerifYieldHook = func(point string, idx int) {
+			if point == "Finalise.beforeHash" && idx == h {
+				<-rel
+			}
+		}
+		go x.T.Pieces.Finalise(h, hash.Hash(x.Hashes[h]))
+		sim.Settle()
+		piece.VerifYieldHook = nil
+		go x.T.Kill(context.Background())
+		sim.Settle()
+		if tor.Get(x.T.Hash) == nil {
+			return "harness: the dying torrent is no longer listed" + describe(), labels
+		}
+		usage = alloc.Bytes()
+		labels["global-expire-while-a-torrent-is-dying"] = true
+		sim.Cleanup(func() {
+			select {
+			case <-rel:
+			default:
+				close(rel)
+			}
+		})
+	}
 	var ret int
 	var pv any
 	func() {
@@ -324,6 +360,10 @@ func runGlobal(c gcase) (fail string, labels map[string]bool) {
 		return fmt.Sprintf("tor.Expire panicked: %v", pv) + describe(), labels
 	}
 	sim.Settle()
+	if hashRelease != nil {
+		close(hashRelease)
+		sim.Settle()
+	}
 	for _, ch := range held {
 		select {
 		case <-ch:
@@ -411,7 +451,7 @@ func runGlobal(c gcase) (fail string, labels map[string]bool) {
 func TestC03GlobalExpire(t *testing.T) {
 	rapid.Check(t, func(rt *rapid.T) {
 		c := gcase{ntor: rapid.IntRange(0, 4).Draw(rt, "torrents"), markSel: rapid.IntRange(0, 6).Draw(rt, "mark"),
-			action: rapid.SampledFrom([]string{"none", "none", "kill-one", "kill-all", "evict-all", "loop-busy", "loop-busy"}).Draw(rt, "action")}
+			action: rapid.SampledFrom([]string{"none", "none", "kill-one", "kill-all", "evict-all", "loop-busy", "loop-busy", "dying-one", "dying-one"}).Draw(rt, "action")}
 		if c.action == "loop-busy" {
 			c.ntor = 1
 		}
